@@ -50,11 +50,11 @@ NdErrs(rest) ==
   LET n == Len(rest) IN
   \* not even the two byte option header: "too short", whichever of the two size errors names it
   IF n < 2 THEN {<<"UnexpectedEndOfSlice", -1>>, <<"UnexpectedEndOfSlice", rest[1]>>, <<"UnexpectedSize", -1>>, <<"UnexpectedSize", rest[1]>>}
-  ELSE LET t == rest[1]  u == rest[2] IN
-       IF u = 0 THEN {<<"ZeroLength", t>>}
-       ELSE IF n < 8 * u THEN {<<"UnexpectedEndOfSlice", t>>}
-       ELSE IF (t = 5 /\ u # 1) \/ (t = 3 /\ u # 4) THEN {<<"UnexpectedSize", t>>, <<"UnexpectedHeader", t>>}
-       ELSE {}
+  \* every condition that is violated admits the error kinds that describe it (an option that is wrong in two ways may be reported either way)
+  ELSE LET t == rest[1]  u == rest[2]  fixed == (t = 5 /\ u # 1) \/ (t = 3 /\ u # 4) IN
+       (IF u = 0 THEN {<<"ZeroLength", t>>} ELSE {})
+       \cup (IF u # 0 /\ n < 8 * u THEN {<<"UnexpectedEndOfSlice", t>>} ELSE {})
+       \cup (IF fixed THEN {<<"UnexpectedSize", t>>, <<"UnexpectedHeader", t>>} ELSE {})
 NdNext(it) ==        \* it = [rest, dead]; returns <<result, new state>>
   IF it.rest = <<>> THEN <<<<"none">>, it>>
   ELSE IF NdErrs(it.rest) # {} THEN <<<<"err", NdErrs(it.rest)>>, [rest |-> <<>>, dead |-> TRUE]>>
